@@ -59,7 +59,9 @@ def check_model(ctx, sc, label, workers=4):
     return r1
 
 
-def run_scenario(ctx, pid, exe, sc, label, stats, samples, oracle_mod, oracle_inv, model=True, nrandom=0, kinds=None, nproc=8, check=True):
+def run_scenario(ctx, pid, exe, sc, label, stats, samples, oracle_mod, oracle_inv, model=True, nrandom=0, kinds=None, nproc=8, check=True, pb=None):
+    if os.environ.get("VERIF_ONLY_PB"):      # self-test aid: judge the systematic search alone
+        model, nrandom, sc = False, 0, {k: v for k, v in sc.items() if k != "starve"}
     r = check_model(ctx, sc, label) if check else {"actions_never": []}
     stats["never"][label] = r["actions_never"]
     results = []
@@ -96,6 +98,17 @@ def run_scenario(ctx, pid, exe, sc, label, stats, samples, oracle_mod, oracle_in
                 x["kind"] = kind
             results += res
             stats["random"] += len(res)
+    # preemption-bounded systematic search on the real code (independent of the step-level model)
+    pb = pb if pb is not None else ((3, 400) if ctx.quick else (4, 20000))
+    if pb and pb[1]:
+        for kind in kinds:
+            res, info = pb_explore(ctx, exe, harness_scen(sc, kind), label + kind, pb[0], pb[1], nproc=nproc)
+            for x in res:
+                x["kind"] = kind
+            results += res
+            stats["pb_executions"] = stats.get("pb_executions", 0) + info["executions"]
+            stats["pb_complete"] = stats.get("pb_complete", 0) + (1 if info["complete"] else 0)
+            stats["pb_searches"] = stats.get("pb_searches", 0) + 1
     by_id = {}
     for x in results:
         by_id[(x["id"], x["kind"])] = x
@@ -162,6 +175,8 @@ def finish_cov(ctx, stats, samples, rule):
         "samples": samples or [{"note": "no sample"}],
         "conformance": {"edges_total": stats["edges_total"], "edges_matched": stats["edges_matched"], "paths_replayed": stats["paths"],
                         "steps_replayed": stats["steps"], "paths_conforming": stats["conforming"], "drift_paths": stats["drift"]},
+        "preemption_bounded_search": {"searches": stats.get("pb_searches", 0), "executions": stats.get("pb_executions", 0), "searches_complete_within_bound": stats.get("pb_complete", 0),
+                                      "bound": 3 if ctx.quick else 4, "what": "stateless search over the real code's schedules (scheduler choices at every shim operation), all schedules with at most `bound` preemptions up to a cap; histories judged by the oracle specification"},
         "random_schedules": stats["random"], "distinct_histories_judged": stats["histories"], "histories_rejected": stats["rejected"],
         "actions_never_fired": stats["never"], "rule": rule,
     })
